@@ -41,8 +41,42 @@ const COSMETIC_RULES: &[&str] = &[
     "/Fo+\\/Bar/$match-case,script", "/Fo+\\/Bar/$image",
 ];
 
+/// Lists outside the arrangement scheme: compiled regexes of a size the small lists never reach (one
+/// full regex with a large counted repetition, 1 800 wildcard rules that share one bucket and are
+/// fused, a long run of one character). Both builds must compile and answer them alike.
+const SPECIAL_LISTS: u64 = 3;
+fn special_answers(k: u64, full: bool) -> (u64, Vec<String>) {
+    let (rules, urls): (Vec<String>, Vec<String>) = match k {
+        0 => (vec!["/big(?:ab|cd|ef){1,3000}z/".to_string()], vec!["https://x.com/bigabcdz".into(), "https://x.com/bigz".into(), "https://x.com/bigababefabz".into(), "https://x.com/bigabc".into()]),
+        1 => (
+            (0..1800).map(|i| format!("/promo/a*b{}z", i)).collect(),
+            vec!["https://x.com/promo/a-7-b7z".into(), "https://x.com/promo/a-1799-b1799z".into(), "https://x.com/promo/a-b1800z".into(), "https://x.com/promo/ab0z".into()],
+        ),
+        _ => (vec!["/wide\\/x{1,20000}y/".to_string()], vec!["https://x.com/wide/xxxy".into(), "https://x.com/wide/y".into(), format!("https://x.com/wide/{}y", "x".repeat(500))]),
+    };
+    let refs: Vec<&str> = rules.iter().map(|r| r.as_str()).collect();
+    let e = vh::netsweep::build_engine(&refs, &[], true, false);
+    let mut h: u64 = 0xcbf29ce484222325;
+    let mut lines = vec![];
+    for u in &urls {
+        for ty in ["script", "image"] {
+            let rq = adblock::request::Request::new(u, "https://y.org/", ty).unwrap();
+            let s = format!("special{} {} {} -> {:?}", k, u, ty, Verdict::of(&e.check_network_request(&rq)));
+            h = seahash::hash(format!("{}|{}", h, s).as_bytes());
+            if full {
+                lines.push(s);
+            }
+        }
+    }
+    (h, lines)
+}
+
 fn list_answers(idx: u64, reqs: &[alpha::Req], full: bool) -> (u64, Vec<String>) {
     let pool = pool();
+    let base_n = count_arrangements_upto(pool.len() as u64, 2);
+    if idx >= base_n {
+        return special_answers(idx - base_n, full);
+    }
     let mut ix = vec![];
     nth_arrangement(idx, pool.len() as u64, &mut ix);
     let std_rules: Vec<&str> = ix.iter().filter(|&&j| !pool[j].1).map(|&j| pool[j].0).chain(COSMETIC_RULES.iter().copied()).collect();
@@ -89,7 +123,7 @@ fn list_answers(idx: u64, reqs: &[alpha::Req], full: bool) -> (u64, Vec<String>)
 }
 
 fn answers_universe() -> (u64, Vec<alpha::Req>) {
-    let n = count_arrangements_upto(pool().len() as u64, 2);
+    let n = count_arrangements_upto(pool().len() as u64, 2) + SPECIAL_LISTS;
     // every third request of C01's quick universe keeps the file small while still containing
     // every URL shape, initiator and type
     let reqs: Vec<alpha::Req> = alpha::requests(false, false).into_iter().enumerate().filter(|(i, _)| i % 3 == 0).map(|(_, r)| r).collect();
